@@ -276,10 +276,14 @@ def run_shard(sh):
                          f"        self.first, self.rest, self.tag = first, rest, tag\n"
                          f"@dataclasses.dataclass\nclass GD_{i}(typing.Generic[_T{i}]):\n    item: _T{i}\n    items: typing.List[_T{i}]\n"
                          # a type parameter that no field uses (a typed reference): the argument is a member all the same
-                         f"@dataclasses.dataclass\nclass GR_{i}(typing.Generic[_T{i}, _U{i}]):\n    id: int\n    tag: _U{i}\n")
+                         f"@dataclasses.dataclass\nclass GR_{i}(typing.Generic[_T{i}, _U{i}]):\n    id: int\n    tag: _U{i}\n"
+                         # members that spell the class's type parameters in ANOTHER order than the class declares them
+                         f"@dataclasses.dataclass\nclass GX_{i}(typing.Generic[_T{i}, _U{i}]):\n    inverse: typing.Dict[_U{i}, _T{i}]\n"
+                         f"    swapped: typing.Tuple[_U{i}, _T{i}]\n    first: _T{i}\n")
                     s0 = rng.choice(comps or gens)
                     for src in rng.sample([f"GP_{i}[int, {s0.src}]", f"list[GP_{i}[{s0.src}, str]]", f"GD_{i}[{s0.src}]", f"dict[str, GD_{i}[{s0.src}]]",
-                                           f"tuple[GD_{i}[int], GD_{i}[{s0.src}]]", f"GR_{i}[{s0.src}, int]", f"dict[str, GR_{i}[{s0.src}, str]]"], 4):
+                                           f"tuple[GD_{i}[int], GD_{i}[{s0.src}]]", f"GR_{i}[{s0.src}, int]", f"dict[str, GR_{i}[{s0.src}, str]]",
+                                           f"GX_{i}[{s0.src}, str]", f"list[GX_{i}[{s0.src}, int]]", f"GX_{i}[bytes, int]"], 5):
                         sh.count("user_generic_roots")
                         check_root(sh, src, prog.ev(src), steps, prog.source)
                 if i % 50 == 0:
